@@ -1,6 +1,7 @@
 package checks
 
 import (
+	"sync"
 	"context"
 	"encoding/json"
 	"fmt"
@@ -159,6 +160,15 @@ func checkC17() fw.Check {
 							cases = append(cases, fw.Case{ID: id, Bubble: true, Run: func(c *fw.Ctx) { runC17Wire(c, id, refmatch.VariantByName(vn), rdns, http, n) }})
 						}
 					}
+				}
+			}
+			// several requests at once on ONE server / one Traceroute instance, identical except for the flag: every
+			// response is judged on its own flag, whatever the others asked for
+			for _, vn := range []string{"icmp4", "udp4", "udp6"} {
+				for n := 0; n < nRuns/2+1; n++ {
+					vn, n := vn, n
+					id := fmt.Sprintf("C17/concurrent/%s/%d", vn, n)
+					cases = append(cases, fw.Case{ID: id, Bubble: true, Run: func(c *fw.Ctx) { runC17Concurrent(c, id, refmatch.VariantByName(vn), n) }})
 				}
 			}
 			// the real command line over kernel routers (c17_cli_test.go): the labs are started first and collected last
@@ -341,6 +351,131 @@ func runC17Wire(c *fw.Ctx, id string, v refmatch.Variant, rdns, viaHTTP bool, n 
 		}
 	}
 	c.Sample(map[string]any{"case": id, "plain": fmtHops(&plain.Traceroute.Runs[0]), "redacted": fmtHops(&red.Traceroute.Runs[0])})
+}
+
+// runC17Concurrent: K requests overlap on one server (HTTP) or one Traceroute value (library); they differ only in
+// skip-private-hops and start within a millisecond of each other, un-flagged first.
+func runC17Concurrent(c *fw.Ctx, id string, v refmatch.Variant, n int) {
+	resetProcessState()
+	var addrs []netip.Addr
+	for _, s := range boundaryAddrs {
+		a := netip.MustParseAddr(s)
+		if a.Is6() == v.V6 {
+			addrs = append(addrs, a)
+		}
+	}
+	for k := 0; k < n%len(addrs); k++ {
+		addrs = append(addrs[1:], addrs[0])
+	}
+	nhops := min(len(addrs), 6)
+	target := netip.MustParseAddr("198.51.100.98")
+	if v.V6 {
+		target = netip.MustParseAddr("2001:db8:77::98")
+	}
+	proto := map[string]string{"icmp": "icmp", "udp": "udp"}[v.Proto]
+	params := traceroute.TracerouteParams{Hostname: target.String(), Port: 33434, Protocol: proto, MinTTL: 1, MaxTTL: nhops + 1, Delay: 10,
+		Timeout: 400 * time.Millisecond, TCPMethod: traceroute.TCPConfigSYN, TracerouteQueries: 1, E2eQueries: 0, WantV6: v.V6}
+	env, err := newReqEnv(c, params, target, 33434, false)
+	if err != nil {
+		c.Inconclusive(err.Error())
+		return
+	}
+	defer env.close()
+	env.modelFor = func(k int, e *simEnv) *pathModel {
+		m := &pathModel{hops: map[int]*hopSpec{}, dist: nhops + 1, destDelay: 30 * time.Millisecond}
+		for t := 1; t <= nhops; t++ {
+			m.hops[t] = &hopSpec{addr: addrs[t-1], delay: time.Duration(3+t) * time.Millisecond}
+		}
+		return m
+	}
+	viaHTTP := n%2 == 0
+	flags := []bool{false, true, false, true, true}
+	docs := make([]*result.Results, len(flags))
+	raws := make([][]byte, len(flags))
+	errs := make([]string, len(flags))
+	srv := server.NewServer()
+	tr := traceroute.NewTraceroute()
+	var wg sync.WaitGroup
+	allocMu.Lock()
+	for i, skip := range flags {
+		i, skip := i, skip
+		wg.Add(1)
+		go func() {
+			defer wg.Done()
+			time.Sleep(time.Duration(i) * 300 * time.Microsecond)
+			if viaHTTP {
+				q := url.Values{"target": {target.String()}, "protocol": {proto}, "port": {"33434"}, "max-ttl": {fmt.Sprint(nhops + 1)}, "timeout": {"400"},
+					"traceroute-queries": {"1"}, "e2e-queries": {"0"}, "skip-private-hops": {fmt.Sprint(skip)}, "ipv6": {fmt.Sprint(v.V6)}}
+				rec := httptest.NewRecorder()
+				srv.TracerouteHandler(rec, httptest.NewRequest("GET", "/traceroute?"+q.Encode(), nil))
+				if rec.Code != 200 {
+					errs[i] = fmt.Sprintf("status %d: %s", rec.Code, rec.Body.String())
+					return
+				}
+				raws[i] = rec.Body.Bytes()
+				d := &result.Results{}
+				if err := json.Unmarshal(raws[i], d); err != nil {
+					errs[i] = err.Error()
+					return
+				}
+				docs[i] = d
+			} else {
+				p := params
+				p.SkipPrivateHops = skip
+				d, err := tr.RunTraceroute(context.Background(), p)
+				if err != nil {
+					errs[i] = err.Error()
+					return
+				}
+				docs[i] = d
+			}
+		}()
+	}
+	wg.Wait()
+	allocMu.Unlock()
+	for i, e := range errs {
+		if e != "" {
+			c.Violate("C17", "concurrent-request-failed", fmt.Sprintf("%s: request %d (skip=%v) failed: %s", id, i, flags[i], e), nil)
+			return
+		}
+	}
+	var plain *result.Results
+	for i, skip := range flags {
+		if !skip {
+			plain = docs[i]
+			break
+		}
+	}
+	for i, skip := range flags {
+		tag := fmt.Sprintf("%s request %d of %d overlapping ones (skip=%v, http=%v)", id, i, len(flags), skip, viaHTTP)
+		if !skip {
+			// an un-flagged request must not be redacted because a neighbour asked for it
+			for _, h := range docs[i].Traceroute.Runs[0].Hops {
+				if want := addrs[min(h.TTL, nhops)-1]; h.TTL <= nhops && !h.IPAddress.Equal(net.IP(want.AsSlice())) {
+					c.Violate("C17", "unflagged-request-changed", fmt.Sprintf("%s: ttl %d reports %v, the path has %s", tag, h.TTL, h.IPAddress, want), nil)
+				}
+			}
+			continue
+		}
+		if viaHTTP {
+			var g map[string]any
+			json.Unmarshal(raws[i], &g)
+			scanHopsJSON(c, tag, g)
+			for _, h := range docs[i].Traceroute.Runs[0].Hops {
+				h.IsDest = false
+			}
+			for _, h := range plain.Traceroute.Runs[0].Hops {
+				h.IsDest = false
+			}
+		}
+		checkRedaction(c, tag, plain, docs[i])
+		for _, h := range plain.Traceroute.Runs[0].Hops {
+			if refPrivate(h.IPAddress) {
+				c.Nontrivial(fmt.Sprintf("concurrent-http%v/%s/%s", viaHTTP, h.IPAddress, addrKind(h.IPAddress)))
+			}
+		}
+	}
+	c.Count("overlapping_requests", len(flags))
 }
 
 // boolSpelling: the spellings of a boolean query parameter that strconv.ParseBool (the documented parser) accepts
